@@ -263,7 +263,19 @@ func c14Expiry(c *vk.Ctx, r *rand.Rand) bool {
 					break
 				}
 				sock.SetDelayTimeout(250 * time.Millisecond)
-				time.Sleep(time.Until(sends[0].T.Add(natTimeout + 60*time.Millisecond)))
+				variant := "reaper-slow-to-notice"
+				if as := w.rig.Rec.ByClient(cl.Addr.String()); ci%2 == 1 && len(as) == 1 {
+					// the other half of the window: the relay loop has ended, the removal report is in
+					// progress (a slow metrics sink) and the entry is still in the table
+					variant = "removal-report-in-progress"
+					as[0].SetSlowRemove(300 * time.Millisecond)
+					for dl := time.Now().Add(natTimeout + udpB); as[0].RemoveEntered() == 0 && time.Now().Before(dl); {
+						time.Sleep(time.Millisecond)
+					}
+				} else {
+					time.Sleep(time.Until(sends[0].T.Add(natTimeout + 60*time.Millisecond)))
+				}
+				c.Count("reaping_window_"+variant, 1)
 				socks := []*NatSock{sock}
 				_, s2, ok2 := w.sendAndWait(c, cr, cl, w.other, 0)
 				if !ok2 {
